@@ -24,7 +24,24 @@ type EV struct {
 type leafRef struct {
 	owner types.Type
 	field int
+	ghost *GhostField // ghost field (heap variable G:Type.name) instead of a Go field
 }
+
+const sSet = "(Array Int Bool)"
+
+func ghostSort(g *GhostField) string {
+	switch g.Sort {
+	case "int", "ref":
+		return sInt
+	case "bool":
+		return sBool
+	case "set":
+		return sSet
+	}
+	return sInt
+}
+
+func ghostVar(g *GhostField) string { return "G:" + g.Type + "." + g.Name }
 
 type Env struct {
 	fe          *FuncEnc
@@ -35,6 +52,8 @@ type Env struct {
 	phiOverride map[*ssa.Phi]string
 	inOld       bool
 	where       string
+	facts       []string // heap well-formedness facts about ground pointer loads
+	topSt       *State
 }
 
 func (fe *FuncEnc) envAt(st *State, at *ssa.BasicBlock) *Env {
@@ -61,20 +80,47 @@ func (env *Env) errf(format string, args ...interface{}) {
 
 func (fe *FuncEnc) evalBool(env *Env, e CExpr, where string) string {
 	env.where = where
+	env.topSt = env.st
 	v := env.rvalue(env.eval(e))
 	if env.sortOfEV(v) != sBool {
 		env.errf("expression %s is not boolean", e)
 	}
+	env.flushFacts()
 	return v.T
 }
 
 func (fe *FuncEnc) evalInt(env *Env, e CExpr, where string) string {
 	env.where = where
+	env.topSt = env.st
 	v := env.rvalue(env.eval(e))
 	if env.sortOfEV(v) != sInt {
 		env.errf("expression %s is not an integer", e)
 	}
+	env.flushFacts()
 	return v.T
+}
+
+// flushFacts assumes the recorded heap well-formedness facts (every pointer
+// stored in the heap refers to an allocated object) in the state the
+// expression was evaluated for.
+func (env *Env) flushFacts() {
+	if env.topSt != nil {
+		for _, f := range env.facts {
+			env.fe.assume(env.topSt, f)
+		}
+	}
+	env.facts = nil
+}
+
+func (env *Env) noteLoad(v EV) EV {
+	if v.Typ == nil || strings.Contains(v.T, "|q_") {
+		return v
+	}
+	switch v.Typ.Underlying().(type) {
+	case *types.Pointer, *types.Map, *types.Slice:
+		env.facts = append(env.facts, env.fe.typeFacts(env.st, v.T, v.Typ))
+	}
+	return v
 }
 
 // rvalue loads from an addressed variable.
@@ -83,10 +129,15 @@ func (env *Env) rvalue(v EV) EV {
 		return v
 	}
 	st := env.st
-	if v.Leaf != nil {
-		return EV{T: env.fe.loadField(st, v.T, v.Leaf.owner, v.Leaf.field), Typ: v.Typ}
+	if v.Leaf != nil && v.Leaf.ghost != nil {
+		g := v.Leaf.ghost
+		h := env.fe.heapGet(st, ghostVar(g), arrSort(ghostSort(g)))
+		return EV{T: fmt.Sprintf("(select %s %s)", h, v.T), Sort: ghostSort(g), Typ: ghostGoType(g)}
 	}
-	return EV{T: env.fe.loadAt(st, v.T, v.Typ), Typ: v.Typ}
+	if v.Leaf != nil {
+		return env.noteLoad(EV{T: env.fe.loadField(st, v.T, v.Leaf.owner, v.Leaf.field), Typ: v.Typ})
+	}
+	return env.noteLoad(EV{T: env.fe.loadAt(st, v.T, v.Typ), Typ: v.Typ})
 }
 
 func (env *Env) eval(e CExpr) EV {
@@ -400,6 +451,12 @@ func (env *Env) sel(x *CSel) EV {
 	if v.Typ == nil {
 		env.errf("cannot select .%s from %s", x.Name, x.X)
 	}
+	if g := env.ghostFieldOf(v.Typ, x.Name); g != nil {
+		if !v.Addr {
+			env.errf("ghost field %s needs an object reference", x.Name)
+		}
+		return EV{T: v.T, Typ: ghostGoType(g), Sort: ghostSort(g), Addr: true, Leaf: &leafRef{ghost: g}}
+	}
 	obj, idx, _ := types.LookupFieldOrMethod(v.Typ, true, env.pkgFor(v.Typ), x.Name)
 	if _, ok := obj.(*types.Var); !ok || obj == nil {
 		env.errf("no field %s in %s", x.Name, typeLabel(v.Typ))
@@ -440,6 +497,37 @@ func (env *Env) sel(x *CSel) EV {
 		}
 	}
 	return cur
+}
+
+func ghostGoType(g *GhostField) types.Type {
+	switch g.Sort {
+	case "int":
+		return types.Typ[types.Int]
+	case "bool":
+		return types.Typ[types.Bool]
+	}
+	return nil
+}
+
+// ghostFieldOf finds a ghost field declared for (the named type of) t.
+func (env *Env) ghostFieldOf(t types.Type, name string) *GhostField {
+	if pt, ok := t.(*types.Pointer); ok {
+		t = pt.Elem()
+	}
+	n, ok := t.(*types.Named)
+	if !ok {
+		return nil
+	}
+	cs := env.fe.eng.cs
+	if g, ok := cs.Ghosts[n.Obj().Name()+"."+name]; ok {
+		return g
+	}
+	if n.Obj().Pkg() != nil {
+		if g, ok := cs.Ghosts[n.Obj().Pkg().Name()+"."+n.Obj().Name()+"."+name]; ok {
+			return g
+		}
+	}
+	return nil
 }
 
 func (env *Env) pkgFor(t types.Type) *types.Package {
@@ -778,6 +866,18 @@ func (env *Env) callExpr(x *CCall) EV {
 			env.errf("addr() of a non-addressable expression %s", x.Args[0])
 		}
 		return EV{T: v.T, Typ: types.NewPointer(v.Typ)}
+	case "in":
+		need(2)
+		return EV{T: fmt.Sprintf("(select %s %s)", arg(1).T, arg(0).T), Typ: boolT}
+	case "add":
+		need(2)
+		return EV{T: fmt.Sprintf("(store %s %s true)", arg(0).T, arg(1).T), Sort: sSet}
+	case "del":
+		need(2)
+		return EV{T: fmt.Sprintf("(store %s %s false)", arg(0).T, arg(1).T), Sort: sSet}
+	case "emptyset":
+		need(0)
+		return EV{T: "((as const (Array Int Bool)) false)", Sort: sSet}
 	case "strat":
 		need(2)
 		return EV{T: fmt.Sprintf("(hv_strat %s %s)", arg(0).T, arg(1).T), Typ: intT}
@@ -948,6 +1048,11 @@ func (env *Env) locsOf(l CExpr) []assignLoc {
 	}
 	if !v.Addr {
 		env.errf("assigns location %s is not addressable", l)
+	}
+	if v.Leaf != nil && v.Leaf.ghost != nil {
+		hv := ghostVar(v.Leaf.ghost)
+		fe.heapSorts[hv] = arrSort(ghostSort(v.Leaf.ghost))
+		return []assignLoc{{hv: hv, addr: v.T}}
 	}
 	if v.Leaf != nil {
 		hv := fe.eng.fieldVar(v.Leaf.owner, v.Leaf.field)
